@@ -93,8 +93,6 @@ structure Lexer where
   cp : Option Checkpoint
   nesting : Nat
   pendingR : List Bool
-  /-- debug-only `last_state` of the loop detector -/
-  lastState : Nat × List Mode
   -- registers (model-only homes of position-valued Rust locals)
   mark : Option Pos3 := none
   lit : LitRegs := {}
@@ -310,7 +308,9 @@ def new (cfg : Cfg) (s : List Char) : Lexer :=
   let L : Lexer := {
     src := s, srcLen := srcLen, linesR := [], toksR := [], litsR := [], cur := cur,
     tok := ⟨byte, start, 0⟩, modesR := [.default], errsR := [], cp := none, nesting := 0,
-    pendingR := [false], lastState := (srcLen, [.default]) }
+    pendingR := [false],
+    -- model-only register: starts at the cursor (it is set by `litBegin` before every use)
+    lit := { lastEnd := byte } }
   (L.bufAddLine cfg byte start).2
 
 end Lexer
